@@ -43,6 +43,11 @@ type RunCtx struct {
 	sim        *Sim
 	nfile      int
 	verbose    bool
+	// strace child mode (C17): perform the straceIdx-th syscall-injected operation
+	// on straceTarget, write its outcome next to it and exit
+	straceTarget string
+	straceIdx    int
+	straceSeen   int
 }
 
 func stackString() string {
@@ -140,7 +145,8 @@ func setupRuntime(tsan bool) {
 // harness bug and is reported with its stack so that it can be told apart).
 func executeRun(prop, tier string, idx int, seed uint64, ch *Chooser, tsan bool, verbose bool) (r *RunCtx) {
 	r = &RunCtx{Prop: prop, Tier: tier, Idx: idx, Seed: seed, ch: ch, Stats: map[string]int{},
-		dig: newDigester(), States: map[uint64]struct{}{}, Sample: map[string]interface{}{}, tsan: tsan, verbose: verbose}
+		dig: newDigester(), States: map[uint64]struct{}{}, Sample: map[string]interface{}{}, tsan: tsan, verbose: verbose,
+		straceTarget: straceChildTarget, straceIdx: straceChildIdx}
 	resetWorld(seed)
 	tmp, err := os.MkdirTemp("", "vsim")
 	if err != nil {
@@ -195,3 +201,7 @@ func sortedStatKeys(m map[string]int) []string {
 type driverFn func(r *RunCtx)
 
 var drivers = map[string]driverFn{}
+
+// set from the command line in strace child mode
+var straceChildTarget string
+var straceChildIdx int
